@@ -171,7 +171,11 @@ def body(ev, cls, template, gender, prec):
             if pr is None:
                 raise hc.PathFail('shape', 'malformed %r' % (r,))
             fields, sec_int, frac = pr
-            eng.check(digits_value(sec_int) < (60 if len(fields) > 1 else 100), 'shape')
+            known = {}
+            if len(fields) == 1:
+                # recorded known finding C12-rounds-to-100: the printed value is exactly '100' (99.995.. rounded up)
+                known['C12-rounds-to-100'] = hc.symstr_eq_term(r, '100')
+            eng.check(digits_value(sec_int) < (60 if len(fields) > 1 else 100), 'shape', {'known_class': known})
             if len(fields) == 3:
                 eng.check(digits_value(fields[1]) < 60, 'shape')
             d = utils.get_distance(ev)
@@ -260,7 +264,7 @@ def run(chk, only=None):
     chk.bounds = {'disciplines': {'timed': timed, 'field': FIELD, 'multi': MULTI}, 'text_templates': len(tmpls),
                   'template_grammar': '1-3 fields of 1-2 digits (1-4 for a lone seconds field), 0-3 decimals after . or ,, separators : or ;, leading 0: / 00:, surrounding blanks, one junk cell over %r, the empty text' % JUNK,
                   'gender': ['m', 'f', 'all', 'x'], 'prec': [None, 2]}
-    chk.outside = ['fixed-duration races and custom H/L events (their result is str(float), not modelled)', 'weight-specific and lower-case field codes (classified by tuple membership in the library)',
+    chk.outside = ['texts whose value is an exact decimal tie at the printed precision (e.g. 36.365 printed to two decimals): the rounding direction depends on the binary representation', 'fixed-duration races and custom H/L events (their result is str(float), not modelled)', 'weight-specific and lower-case field codes (classified by tuple membership in the library)',
                    'texts outside the template grammar', 'event codes other than the listed representatives of each behavioural class']
     print('C12: %d (discipline, template) jobs' % len(jobs), flush=True)
     pool.run_jobs(chk, worker, jobs, chunksize=2, progress=200)
